@@ -164,6 +164,31 @@ func (c *corpusTree) ensureDBs() error {
 			sigs = append(sigs, dup)
 		}
 	}
+	// signatures indexed from the same-named functions of different packages share
+	// the union of their string patterns: each function then matches "its" pattern
+	// only, with equal scores
+	byName := map[string][]int{}
+	for i, sg := range sigs {
+		if strings.HasPrefix(sg.Name, "sig_Shared") {
+			byName[sg.Name] = append(byName[sg.Name], i)
+		}
+	}
+	for _, idxs := range byName {
+		seen := map[string]bool{}
+		var union []string
+		for _, i := range idxs {
+			for _, p := range sigs[i].IdentifyingFeatures.StringPatterns {
+				if !seen[p] {
+					seen[p] = true
+					union = append(union, p)
+				}
+			}
+		}
+		sort.Strings(union)
+		for _, i := range idxs {
+			sigs[i].IdentifyingFeatures.StringPatterns = union
+		}
+	}
 	if seed%3 == 0 && len(sigs) > 0 {
 		// a crowded bucket: 70 further copies of one signature (equal confidence for
 		// the same function) under different IDs, and 10 near variants
@@ -190,6 +215,22 @@ func (c *corpusTree) ensureDBs() error {
 	}
 	if err := js.SaveDatabase(jsonDB); err != nil {
 		return err
+	}
+	if seed%2 == 1 {
+		// a hand-maintained database: one more copy of the first signature WITHOUT an
+		// id (the JSON loader accepts it; its alerts carry an empty signature_id)
+		if raw, err := os.ReadFile(jsonDB); err == nil {
+			var db detection.SignatureDatabase
+			if json.Unmarshal(raw, &db) == nil && len(db.Signatures) > 0 {
+				cp := db.Signatures[0]
+				cp.ID = ""
+				cp.Severity = "MEDIUM"
+				db.Signatures = append(db.Signatures, cp)
+				if out, err := json.MarshalIndent(db, "", "  "); err == nil {
+					os.WriteFile(jsonDB, out, 0o600)
+				}
+			}
+		}
 	}
 	c.pebble = filepath.Join(c.root, "sigs.db")
 	ps, err := pebbledb.NewPebbleScanner(c.pebble, pebbledb.DefaultPebbleScannerOptions())
@@ -490,12 +531,22 @@ func runC10(t *vs.Tape, cfg map[string]string) (res vs.Result) {
 				c.Inc("probe_scans_listing_dependencies")
 			}
 			seenKey := map[string]bool{}
+			full := map[string]string{}
 			for _, a := range so.Alerts {
 				k := a.MatchedFunction + "\x00" + a.SignatureName
 				if seenKey[k] {
 					c.Inc("probe_alert_sort_key_ties")
 				}
 				seenKey[k] = true
+				fk := fmt.Sprintf("%s\x00%s\x00%v", k, a.SignatureID, a.Confidence)
+				b, _ := json.Marshal(a)
+				if prev, ok := full[fk]; ok && prev != string(b) {
+					c.Inc("probe_alerts_tied_on_all_keys_but_different")
+				}
+				full[fk] = string(b)
+				if a.SignatureID == "" {
+					c.Inc("probe_alerts_without_signature_id")
+				}
 			}
 		}
 	}
